@@ -41,7 +41,18 @@ def _no_notes_master_rel(members):
     return out
 
 
-DECKS = [BASE, _no_notes_master_rel(BASE)]
+def _partial_xfrm(members):
+    """Variant deck: the title placeholder of the first slide overrides its position only (a:xfrm with a:off but no a:ext, what
+    `ph.left = ...; ph.top = ...` leaves behind), so its size is still inherited."""
+    prs = Presentation(M.MemFile(dict(members)))
+    ph = prs.slides[0].shapes[0]
+    ph.left, ph.top = 111111, 222222
+    mf = M.MemFile()
+    prs.save(mf)
+    return dict(mf.members)
+
+
+DECKS = [BASE, _no_notes_master_rel(BASE), _partial_xfrm(BASE)]
 
 
 def _prune(e):
@@ -148,7 +159,7 @@ def _diff(a, b):
 
 _ONE = '''
 @cond(timeout=1800, encodes=ENC,
-      bound="deck in [base deck, base deck without a presentation-level notes-master relationship] x every read-only accessor "
+      bound="deck in [base deck, base deck without a presentation-level notes-master relationship, base deck with a placeholder that overrides its position only] x every read-only accessor "
             "(property) of %d object kinds discovered by introspection, %d (kind, accessor) pairs, chunk {k}/%d (symbolic index): the "
             "package saved after the read equals the package saved straight after opening, up to empty attribute-less containers; "
             "accessors documented as creating content (%s) are excluded" % (len(set(k for k, _ in ACCESSORS)), len(ACCESSORS), NCHUNK, sorted(CREATING)))
